@@ -178,14 +178,20 @@ func (h *Handler) HandleOpenFile(ctx *Context, path string) (fs.FileInfo, error)
 		return nil, err
 	}
 
-	ctx.State.ROFile = f
-	ctx.State.CDSectorSize = 2352 // default sector size
-
 	fi, err := f.Stat()
 	if err != nil {
 		log.WarnContext(ctx, "Stat failed", logutil.ErrorAttr(err))
+
+		// client gets an error, so it must not be able to read from this file
+		if err := f.Close(); err != nil {
+			log.WarnContext(ctx, "Close of just opened r/o file failed", logutil.ErrorAttr(err))
+		}
+
 		return nil, err
 	}
+
+	ctx.State.ROFile = f
+	ctx.State.CDSectorSize = 2352 // default sector size
 
 	// if file size between 2Mb and 848Mb we should try to detect sector size
 	if fi.Size() >= 0x200000 && fi.Size() <= 0x35000000 {
